@@ -26,6 +26,7 @@ func init() {
 	childModes["c12child"] = c12Child
 	childModes["c12neg"] = c12Neg
 	childModes["c12muted"] = c12Muted
+	childModes["c12hist"] = c12Hist
 }
 
 type stdoutRec struct{}
@@ -252,6 +253,62 @@ func c12Muted(a []string) {
 		l.PanicContext(context.Background(), "muted-message")
 	}
 	os.Stdout.WriteString("RETURNED\n")
+	os.Exit(0)
+}
+
+// c12hist <scenario> <flags>: what happened earlier in the process does not change what Panic / Fatal do.
+//
+//	panics: forty Panic calls on one logger, each recovered (a service behind a recover middleware): every one writes its
+//	        record and panics with its message; then an Info record is written; then Fatal exits with 253.
+//	args:   the program rewrites os.Args (to something that does not / does look like a test command line) and some logger is
+//	        set to the Debug level, which switches the debug mode on; the Panic call that follows behaves as the mode the
+//	        process really runs in says.
+func c12Hist(a []string) {
+	if len(a) != 2 {
+		os.Exit(4)
+	}
+	flags, _ := strconv.ParseUint(a[1], 10, 64)
+	slog.SetFlags((slog.GetFlags() &^ slog.Lcaller) | slog.Flags(flags))
+	l := slog.New("c12hist").SetLevel(slog.InfoLevel).SetColorMode(false)
+	l.SetWriter(stdoutRec{}).SetErrorWriter(stdoutRec{})
+	try := func(i int, f func()) {
+		defer func() {
+			if r := recover(); r != nil {
+				os.Stdout.WriteString(fmt.Sprintf("PANIC %d ", i) + hex.EncodeToString([]byte(fmt.Sprint(r))) + "\n")
+				return
+			}
+		}()
+		f()
+		os.Stdout.WriteString(fmt.Sprintf("RETURNED %d\n", i))
+	}
+	switch a[0] {
+	case "panics":
+		for i := 0; i < 40; i++ {
+			try(i, func() {
+				if i%2 == 0 {
+					l.Panic(fmt.Sprintf("msg-%d", i), "i", i)
+				} else {
+					l.PanicContext(context.Background(), fmt.Sprintf("msg-%d", i), "i", i)
+				}
+			})
+		}
+		try(40, func() { l.Info("msg-40", "after", "forty recovered panics") })
+		try(41, func() { l.Warn("msg-41") })
+		l.Fatal("msg-42")
+		os.Stdout.WriteString("RETURNED 42\n")
+	case "args":
+		if slog.VerifInTesting() {
+			os.Args = []string{"myapp", "serve", "--debug"}
+		} else {
+			os.Args = []string{"/tmp/go-build1/b001/myapp.test", "-test.v", "-test.run", "^TestServe$"}
+		}
+		slog.New("c12hist-other").SetLevel(slog.DebugLevel)
+		l.SetLevel(slog.TraceLevel)
+		try(0, func() { l.Panic("msg-0", "port", 8080) })
+		try(1, func() { l.Info("msg-1") })
+		l.Fatal("msg-2")
+		os.Stdout.WriteString("RETURNED 2\n")
+	}
 	os.Exit(0)
 }
 
@@ -491,7 +548,78 @@ func runC12(r *run) {
 			}
 		}
 	}
-	r.extra["child_processes"] = len(cells) + 4 + 12
+	// what happened earlier in the process does not change what Panic / Fatal do
+	for _, testing := range []bool{false, true} {
+		for _, fl := range []uint64{0, always, noInt} {
+			terminates := fl&noInt == 0 && (!testing || fl&always != 0)
+			for _, scen := range []string{"panics", "args"} {
+				out, code := c12Spawn(exe, testing, "c12hist", scen, strconv.FormatUint(fl, 10))
+				r.seen("history|" + scen + "|" + b01(testing) + "|" + fmt.Sprint(fl))
+				var got []string
+				for _, ln := range strings.Split(out, "\n") {
+					switch {
+					case strings.HasPrefix(ln, "REC "):
+						b, _ := hex.DecodeString(ln[4:])
+						m := "?"
+						if i := strings.Index(string(b), "msg-"); i >= 0 {
+							m = string(b)[i:]
+							if j := strings.IndexAny(m, "\" \n"); j >= 0 {
+								m = m[:j]
+							}
+						}
+						got = append(got, "record "+m)
+					case strings.HasPrefix(ln, "PANIC "):
+						f := strings.Fields(ln)
+						b, _ := hex.DecodeString(f[2])
+						got = append(got, "panic "+string(b))
+					case strings.HasPrefix(ln, "RETURNED "):
+						got = append(got, "returned")
+					}
+				}
+				var want []string
+				last := 41
+				if scen == "args" {
+					last = 1
+				}
+				for i := 0; i <= last; i++ {
+					want = append(want, fmt.Sprintf("record msg-%d", i))
+					isPanic := (scen == "panics" && i < 40) || (scen == "args" && i == 0)
+					if isPanic && terminates {
+						want = append(want, fmt.Sprintf("panic msg-%d", i))
+					} else {
+						want = append(want, "returned")
+					}
+				}
+				want = append(want, fmt.Sprintf("record msg-%d", last+1))
+				wantCode := 253
+				if !terminates {
+					want = append(want, "returned")
+					wantCode = 0
+				}
+				if strings.Join(got, "|") != strings.Join(want, "|") || code != wantCode {
+					k := 0
+					for k < len(got) && k < len(want) && got[k] == want[k] {
+						k++
+					}
+					exp, act := "end of output", "end of output"
+					if k < len(want) {
+						exp = want[k]
+					}
+					if k < len(got) {
+						act = got[k]
+					}
+					what := "after forty recovered Panic calls on one logger"
+					if scen == "args" {
+						what = "after the program rewrote os.Args and a logger was set to the Debug level"
+					}
+					r.violate(violation{What: "Panic / Fatal / other severities do not behave as stated " + what,
+						Input:    map[string]any{"go_test_mode": testing, "flags": fl, "scenario": "harness " + "c12hist " + scen, "step": k},
+						Expected: map[string]any{"event": exp, "exit": wantCode}, Actual: map[string]any{"event": act, "exit": code, "output_tail": tail(out, 300)}})
+				}
+			}
+		}
+	}
+	r.extra["child_processes"] = len(cells) + 4 + 12 + 12
 }
 
 func tail(s string, n int) string {
